@@ -19,7 +19,7 @@ RULE = ("programs = parser_method! invocations (strip_prefix, strip_suffix, find
         "Parser::new and with_start_offset(.., 100) after a skip; oracle = reference in the same program using the same "
         "literal tokens in expression position: strip = first listed alternative that is a prefix/suffix, find = earliest "
         "start (latest end) of any alternative, ties to the first listed, trim = repeatedly remove the first listed matching "
-        "alternative until none or an empty one matches, no match => default branch and parser unchanged; the invocation is written directly or inside a caller's macro_rules! with every literal forwarded as a `literal` / `expr` / `tt` fragment (alone or as pieces of concat!); compared: branch, "
+        "alternative until none or an empty one matches, no match => default branch and parser unchanged; the invocation is written directly or inside a caller's macro_rules! with every literal forwarded as a `literal` / `expr` / `tt` / `pat_param` fragment (alone or as pieces of concat!) or every branch's whole `a | b` list forwarded as one `pat` fragment; \\u{..} escapes with `_` separators; 30% of the match-form programs sit in the caller's own loop with branch bodies that continue / break it (unlabelled or labelled), return from the function or fall through, compared with the same loop written around the reference; compared: branch, "
         "remainder, start_offset, end_offset; non-trivial = >= 2 alternatives where one is a prefix/suffix/substring of another, "
         "or a literal using >= 2 distinct encoding devices, counted per distinct program")
 
@@ -122,6 +122,27 @@ pub struct Prog {
     pub form: u8,
     pub alts: &'static [(&'static str, u32)],
     pub k: for<'a> fn(Parser<'a>) -> (u32, Parser<'a>),
+    /// loop programs: (add, action) per branch, the default branch last
+    pub lp: Option<&'static [(u32, u8)]>,
+}
+
+/// the caller's loop around the invocation, written with the reference instead of the macro:
+/// action 0 = fall through to `n += 100`, 1 = continue, 2 = break, 3 = return with n + 500
+pub fn reference_loop(form: u8, alts: &[(&str, u32)], spec: &[(u32, u8)], rem: &str, start: usize) -> Obs {
+    let mut cur = Obs { branch: 0, rem: rem.to_string(), start, end: start + rem.len() };
+    let mut n = 0u32;
+    let mut iters = 0u32;
+    loop {
+        iters += 1;
+        if iters > 12 { n += 1000; break; }
+        let r = reference(form, alts, &cur.rem, cur.start);
+        let (add, act) = if r.branch == 99 { spec[spec.len() - 1] } else { spec[r.branch as usize] };
+        cur = Obs { branch: 0, ..r };
+        n += add;
+        match act { 1 => continue, 2 => break, 3 => { n += 500; break } _ => {} }
+        n += 100;
+    }
+    Obs { branch: n, ..cur }
 }
 
 pub fn run_all(progs: &[Prog]) {
@@ -140,7 +161,10 @@ pub fn run_all(progs: &[Prog]) {
                     let n = inp.chars().next().map_or(0, |c| c.len_utf8());
                     (p.skip(n), &inp[n..], 100 + n)
                 };
-                let want = reference(pr.form, pr.alts, rem, start);
+                let want = match pr.lp {
+                    Some(spec) => reference_loop(pr.form, pr.alts, spec, rem, start),
+                    None => reference(pr.form, pr.alts, rem, start),
+                };
                 let (br, np) = (pr.k)(p);
                 let got = obs(br, np);
                 evals += 1;
@@ -186,6 +210,13 @@ def render_char(rng, c, devices):
     digits = digits.rjust(width, "0")
     if rng.random() < 0.5:
         digits = digits.upper()
+    if rng.random() < 0.25:
+        # rustc allows `_` separators after the first hex digit of a unicode escape
+        devices.add("unicode_underscore")
+        k = rng.randint(1, 3)
+        for _ in range(k):
+            pos = rng.randint(1, len(digits))
+            digits = digits[:pos] + "_" + digits[pos:]
     return "\\u{" + digits + "}"
 
 
@@ -303,17 +334,23 @@ def gen_program(rng):
         groups = [alts]
     # macro forwarding: the invocation sits inside a caller's macro_rules! and every literal arrives as a forwarded
     # fragment (`$l:literal` / `$l:expr` / `$l:tt`), alone or as pieces of a concat!(..)
-    forward = rng.choice([None, None, None, "literal", "expr", "tt"])
-    if forward:
+    forward = rng.choice([None, None, None, None, "literal", "expr", "tt", "pat", "pat_param"])
+    if forward in ("literal", "expr", "tt"):
         for a in alts:
             t = a["text"]
             cut = rng.randint(0, len(t)) if (len(t) >= 2 and rng.random() < 0.5) else None
             a["pieces"] = [t] if cut is None else [t[:cut], t[cut:]]
     # how each branch body is written: `=> expr,` / `=> { expr }` (no comma) / `=> { expr },`; same for the default
     bodyforms = [rng.randint(0, 2) for _ in range(len(groups) + 1)]
+    # control flow in branch bodies: the invocation sits in the caller's own loop and branches `continue` / `break` that
+    # loop (unlabelled or labelled), `return` from the function, or fall through to the statement after the macro
+    loopspec = None
+    if form < 4 and rng.random() < 0.3:
+        acts = [(rng.choice([1, 10, 20]), rng.choice([0, 0, 1, 2, 3]), rng.random() < 0.3) for _ in range(len(groups))]
+        loopspec = {"branches": acts, "default": (rng.choice([3, 7]), rng.choice([2, 2, 2, 0, 1, 3]), rng.random() < 0.3), "after": 100}
     related = any(a != b and (a["text"] in b["text"]) for a in alts for b in alts if a is not b)
     multi_dev = any(len(d) >= 2 for d in devices_all)
-    return {"form": form, "groups": groups, "forward": forward, "bodyforms": bodyforms, "related": related, "multi_device": multi_dev,
+    return {"form": form, "groups": groups, "forward": forward, "bodyforms": bodyforms, "loop": loopspec, "related": related, "multi_device": multi_dev,
             "devices": sorted({d for ds in devices_all for d in ds})}
 
 
@@ -332,58 +369,94 @@ def plain_lit(text):
     return "\"" + "".join(out) + "\""
 
 
+def loop_body(e):
+    """a branch body of a loop program: fuel guard, `n += add`, then the control-flow action"""
+    lab = " 'outer" if e["label"] else ""
+    act = ["", "continue%s" % lab, "break%s" % lab, "return (n + 500, p)"][e["act"]]
+    if e["bare"] and e["act"] in (2, 3):
+        return act
+    return "{ fuel += 1; if fuel > 40 { return (7777, p); } n += %d; %s }" % (e["add"], act)
+
+
+def loop_entries(prog):
+    lp = prog["loop"]
+
+    def norm(x):
+        add, act, flag = x
+        bare = flag and act in (2, 3)
+        return {"add": 0 if bare else add, "act": act, "label": flag and not bare and act in (1, 2), "bare": bare}
+    return [norm(x) for x in lp["branches"]] + [norm(lp["default"])]
+
+
 def render_one(i, prog):
     form = prog["form"]
     name = FORM_NAMES[form]
     fwd = prog.get("forward")
+    lp = prog.get("loop") if form < 4 else None
+    params = []  # (fragment name, kind, argument tokens) of the caller's macro_rules!
     alts_src = []
-    lits = []  # forwarded literal tokens, in order of use
+
+    def new_param(kind, arg):
+        params.append(("$l%d" % len(params), kind, arg))
+        return params[-1][0]
 
     def tok(a):
         """the pattern token of alternative `a` as written in the parser_method! invocation"""
+        if fwd == "pat_param":
+            return new_param("pat_param", a["tok"])
         if not fwd or "pieces" not in a:
             return a["tok"]
-        names = []
-        for piece in a["pieces"]:
-            names.append("$l%d" % len(lits))
-            lits.append(plain_lit(piece))
+        names = [new_param(fwd, plain_lit(piece)) for piece in a["pieces"]]
         return names[0] if len(names) == 1 else "concat!(%s)" % ", ".join(names)
+
+    def group_pat(g):
+        if fwd == "pat":
+            # the whole `a | b` list of the branch arrives as one `pat` fragment
+            return new_param("pat", " | ".join(a["tok"] for a in g))
+        return " | ".join(tok(a) for a in g)
 
     for bi, g in enumerate(prog["groups"]):
         for a in g:
-            ref = plain_lit(a["text"]) if (fwd and "pieces" in a) else a["tok"]
+            ref = plain_lit(a["text"]) if (fwd in ("literal", "expr", "tt") and "pieces" in a) else a["tok"]
             alts_src.append("(%s, %d)" % (ref, bi if form < 4 else 0))
     alts_decl = "const ALTS_%d: &[(&str, u32)] = &[%s];" % (i, ", ".join(alts_src))
-    if fwd:
-        if form < 4:
-            bf = prog.get("bodyforms") or [0] * (len(prog["groups"]) + 1)
-
-            def body(v, f):
-                return ["%d," % v, "{ %d }" % v, "{ %d }," % v][f]
-            branches = "".join("%s => %s\n            " % (" | ".join(tok(a) for a in g), body(bi, bf[bi])) for bi, g in enumerate(prog["groups"]))
-            inv = "parser_method!{$p, %s;\n            %s_ => %s\n        }" % (name, branches, ["99", "{ 99 }", "99,"][bf[-1]])
-        else:
-            inv = "parser_method!{$p, %s; %s}" % (name, " | ".join(tok(a) for a in prog["groups"][0]))
-        params = "".join(", $l%d:%s" % (j, fwd) for j in range(len(lits)))
-        mac = "macro_rules! fw_%d { ($p:ident%s) => { %s }; }" % (i, params, inv)
-        args = "".join(", " + l for l in lits)
-        if form < 4:
-            k = "%s\nfn k_%d<'a>(mut p: Parser<'a>) -> (u32, Parser<'a>) {\n    let r = fw_%d!(p%s);\n    (r, p)\n}" % (mac, i, i, args)
-        else:
-            k = "%s\nfn k_%d<'a>(mut p: Parser<'a>) -> (u32, Parser<'a>) {\n    fw_%d!(p%s);\n    (0, p)\n}" % (mac, i, i, args)
-        return alts_decl, k
+    pv = "$p" if fwd else "p"
     if form < 4:
         bf = prog.get("bodyforms") or [0] * (len(prog["groups"]) + 1)
-
-        def body(v, f):
-            return ["%d," % v, "{ %d }" % v, "{ %d }," % v][f]
-        branches = "".join("%s => %s\n        " % (" | ".join(a["tok"] for a in g), body(bi, bf[bi])) for bi, g in enumerate(prog["groups"]))
-        k = ("fn k_%d<'a>(mut p: Parser<'a>) -> (u32, Parser<'a>) {\n    let r = parser_method!{p, %s;\n        %s_ => %s\n    };\n    (r, p)\n}"
-             % (i, name, branches, ["99", "{ 99 }", "99,"][bf[-1]]))
+        pats = [group_pat(g) for g in prog["groups"]]
+        if lp:
+            ents = loop_entries(prog)
+            bodies = [loop_body(e) for e in ents]
+            if fwd:
+                # the bodies (with their `break` / `continue`) are forwarded as `expr` fragments
+                bodies = [new_param("expr", b) for b in bodies]
+            vals = [b + "," for b in bodies]
+        else:
+            vals = [["%d," % v, "{ %d }" % v, "{ %d }," % v][bf[v]] for v in range(len(pats))] + [["99", "{ 99 }", "99,"][bf[-1]]]
+        branches = "".join("%s => %s\n            " % (pt, vals[bi]) for bi, pt in enumerate(pats))
+        inv = "parser_method!{%s, %s;\n            %s_ => %s\n        }" % (pv, name, branches, vals[-1])
     else:
-        pats = " | ".join(a["tok"] for a in prog["groups"][0])
-        k = "fn k_%d<'a>(mut p: Parser<'a>) -> (u32, Parser<'a>) {\n    parser_method!{p, %s; %s};\n    (0, p)\n}" % (i, name, pats)
+        inv = "parser_method!{%s, %s; %s}" % (pv, name, group_pat(prog["groups"][0]))
+    mac = ""
+    call = inv
+    if fwd:
+        mac = "macro_rules! fw_%d { ($p:ident%s) => { %s }; }\n" % (i, "".join(", %s:%s" % (n_, k_) for n_, k_, _ in params), inv)
+        call = "fw_%d!(p%s)" % (i, "".join(", " + a_ for _, _, a_ in params))
+    sig = "fn k_%d<'a>(mut p: Parser<'a>) -> (u32, Parser<'a>)" % i
+    if lp:
+        k = ("%s%s {\n    let mut n = 0u32; let mut iters = 0u32; let mut fuel = 0u32;\n    'outer: loop {\n        iters += 1;\n"
+             "        if iters > 12 { n += 1000; break; }\n        %s;\n        n += %d;\n    }\n    (n, p)\n}" % (mac, sig, call, lp["after"]))
+    elif form < 4:
+        k = "%s%s {\n    let r = %s;\n    (r, p)\n}" % (mac, sig, call)
+    else:
+        k = "%s%s {\n    %s;\n    (0, p)\n}" % (mac, sig, call)
     return alts_decl, k
+
+
+def loop_table(pr):
+    if pr.get("loop") and pr["form"] < 4:
+        return "Some(&[%s])" % ", ".join("(%d, %d)" % (e["add"], e["act"]) for e in loop_entries(pr))
+    return "None"
 
 
 def render_program(progs):
@@ -393,7 +466,7 @@ def render_program(progs):
         a, k = render_one(i, pr)
         parts.append(a)
         parts.append(k)
-        table.append("Prog { id: %d, form: %d, alts: ALTS_%d, k: k_%d }," % (i, pr["form"], i, i))
+        table.append("Prog { id: %d, form: %d, alts: ALTS_%d, k: k_%d, lp: %s }," % (i, pr["form"], i, i, loop_table(pr)))
     parts.append("fn main() {\n    let progs = vec![\n        " + "\n        ".join(table) + "\n    ];\n    run_all(&progs);\n}\n")
     return "\n\n".join(parts)
 
@@ -478,12 +551,29 @@ def run_batch(name, progs, timeout):
 
 def simplify(pr):
     out = []
+    for key in ("loop", "forward"):
+        if pr.get(key):
+            d = json.loads(json.dumps(pr))
+            d[key] = None
+            for g in d["groups"]:
+                for a in g:
+                    a.pop("pieces", None)
+            out.append(d)
+    if pr.get("loop"):
+        # one action at a time becomes a plain fall-through
+        for bi in range(len(pr["loop"]["branches"])):
+            if pr["loop"]["branches"][bi][1] != 0:
+                d = json.loads(json.dumps(pr))
+                d["loop"]["branches"][bi][1] = 0
+                out.append(d)
     # drop one alternative
     flat = [(gi, ai) for gi, g in enumerate(pr["groups"]) for ai in range(len(g))]
     if len(flat) > 1:
         for gi, ai in flat:
             d = json.loads(json.dumps(pr))
             del d["groups"][gi][ai]
+            if not d["groups"][gi] and d.get("loop"):
+                del d["loop"]["branches"][gi]
             d["groups"] = [g for g in d["groups"] if g]
             out.append(d)
     # replace a literal by the plainest rendering of its text
@@ -542,6 +632,13 @@ def run(prop, tier, seed, out, timeout, **kw):
             for d in pr["devices"]:
                 labels["device_" + d] = labels.get("device_" + d, 0) + 1
             labels["form_" + FORM_NAMES[pr["form"]]] = labels.get("form_" + FORM_NAMES[pr["form"]], 0) + 1
+            if pr.get("forward"):
+                labels["forward_" + pr["forward"]] = labels.get("forward_" + pr["forward"], 0) + 1
+            if pr.get("loop") and pr["form"] < 4:
+                labels["caller_loop"] = labels.get("caller_loop", 0) + 1
+                for e in loop_entries(pr):
+                    kname = "loop_action_" + ["fallthrough", "continue", "break", "return"][e["act"]]
+                    labels[kname] = labels.get(kname, 0) + 1
             st = stats.get(i, {})
             if (pr["related"] or pr["multi_device"]) and st.get("matched", 0) > 0:
                 key = json.dumps(pr, sort_keys=True)
